@@ -404,6 +404,13 @@ func (s *Scheduler) run(emitter Emitter, freq time.Duration) {
 		} else {
 			readyc = nil
 		}
+		if ongoing >= s.concurrency {
+			// Every worker already holds a job whose result we have not
+			// processed yet. Don't hand out more work than donec can
+			// absorb: otherwise a worker can block forever on donec
+			// after we exit early.
+			readyc = nil
+		}
 
 		select {
 		case readyc <- next:
